@@ -121,6 +121,29 @@ def polyFeatIdOracle (pts : List (V3 Rat)) (tris : List (Nat × Nat × Nat)) (D 
   let unitN (n : V3 Rat) : Bool := rabs (n.normSq - 1) ≤ 1 / 10 ^ 9
   let sinD : Rat := 2515156836085391 / 144115188075855872
   let cosD : Rat := 4502913707333573 / 4503599627370496
+  -- the other side of the documented tolerance: when the support vertex is unique (every other point is worse by a
+  -- margin), a face through it within one degree of `dir` must be reported as a face, and (for a vertex result) so must an
+  -- edge through it within one degree of orthogonal to `dir`
+  let tops := (List.range pts.length).filter fun i => leS mx (D.dot (pts.getD i zero3)) (1000 * scale)
+  let missed : Option String :=
+    match tops with
+    | [s] =>
+      let S := pts.getD s zero3
+      let has := fun (t : Nat × Nat × Nat) (x : Nat) => t.1 == x || t.2.1 == x || t.2.2 == x
+      if kind != 'f' && (tris.any fun t => has t s &&
+          (let Nt := triNormal pts t; Nt.dot D > (cosD + tol) * norm3 Nt * Dn)) then
+        some "fail a-face-through-the-support-vertex-is-within-one-degree-of-dir-but-was-not-returned"
+      else if kind == 'v' && ((edgeTable tris).any fun (a, b) => (a == s || b == s) &&
+          (let ab := (pts.getD b zero3).sub (pts.getD a zero3)
+           let adj := tris.filter fun t => has t a && has t b
+           (match adj with | [t1, t2] => decide (((triNormal pts t1).cross (triNormal pts t2)).normSq != 0) | _ => false) &&
+           rabs (ab.dot D) < (sinD - tol) * norm3 ab * Dn)) then
+        some "fail an-edge-through-the-support-vertex-is-within-one-degree-of-orthogonal-to-dir-but-a-vertex-was-returned"
+      else none
+    | _ => none
+  match missed with
+  | some e => e
+  | none =>
   match kind with
   | 'v' =>
     match pts[id]? with
